@@ -33,3 +33,5 @@ static void sb_sort(void)
 }
 void h_sort_mt(void) { sb_sort(); }
 void h_sort_ev(void) { sb_sort(); }
+void h_sort_mt_4(void) { sb_sort(); }
+void h_sort_ev_4(void) { sb_sort(); }
